@@ -44,6 +44,7 @@ BRIDGE_FUNCS = {
     "C04": ["to_camel_case", "fix_name_segment", "fix_field_path"],
     "C06": ["field_header_disambiguated", "routing_param_disambiguated_field"],
     "C08": ["address_resolve"],
+    "C10": ["sort_lines"],
     "C11": ["to_valid_filename", "to_valid_module_name"],
     "C12": ["to_snake_case", "to_valid_module_name", "fix_name_segment", "fix_field_path", "client_method_name"],
     "C14": ["coerce_response_name"],
